@@ -278,6 +278,12 @@ def run(report: Report, tier, seed):
         many = list(ex.map(many_constants_case, [(k, m, v) for k in ("ints", "bytes") for m in (3, 5, 6, 40, 130, 257, 300) for v in (3, 10)]))
         spj = [(o, rep, v) for o in list(range(6 if tier == "quick" else 40)) + [-1, -2] for rep in (1, 2, 3) for v in (3, 6, 10)]
         spr = list(ex.map(spelling_case, spj, chunksize=4))
+        tj = template_jobs(tier)
+        tr = list(ex.map(template_case, tj, chunksize=4))
+    tbad = [r for r in tr if r["problems"]]
+    report.bounded.append(Bounded(function="createConstantBlocks with template constants (Tmpl.Int / Tmpl.Bytes) next to literals", contract="both forms compile and log the same values once the templates are substituted",
+                                  bound=f"{len(tj)} (number of literals, template frequency, literal frequency, version) settings: the template more / equally / less frequent than the literals, inside and outside the first four entries",
+                                  cases=len(tr), distinct_nontrivial=len(tr), failures=len(tbad)))
     spbad = [r for r in spr if r["problems"]]
     report.bounded.append(Bounded(function="createConstantBlocks on constants whose literal text or value coincides across literal kinds", contract="every load site pushes the value its own pseudo-op form denotes",
                                   bound=f"18 literals (method / byte / addr / enum / int whose argument texts coincide across kinds, one value in several spellings) and all 13 named integer constants (OnComplete, TxnType), each executed and compared with its independently computed value, x {len(spj)} (order, repetition, version) settings",
@@ -294,6 +300,8 @@ def run(report: Report, tier, seed):
     report.sample({"site": "intc 5 // 1005", "check": "intcblock[5] == 1005"})
 
     def search(fn, obs):
+        if tbad:
+            return {"input": {"template": tbad[0]["job"]}, "what": tbad[0]["problems"][0]}
         if spbad:
             return {"input": {"spelling": spbad[0]["job"]}, "what": spbad[0]["problems"][0]}
         if mbad:
@@ -307,6 +315,10 @@ def run(report: Report, tier, seed):
     report.settle_refuted(search)
     if any(o.status == "refuted" for o in report.obs):
         bad, mbad, spbad = bad[:0], mbad[:0], spbad[:0]      # reported once, with the refuted obligation
+    if any(o.status == "refuted" for o in report.obs):
+        tbad = tbad[:0]
+    for b in tbad[:2]:
+        report.violation(Violation(key=f"template:{b['job']}", what=f"template constants {b['job']}: {b['problems'][0]}"[:400], replay={"kind": "template", "job": b["job"]}, confirmed_native=True))
     for b in spbad[:2]:
         report.violation(Violation(key=f"spelling:{b['job']}", what=f"coinciding literal texts {b['job']}: {b['problems'][0]}"[:400], replay={"kind": "spelling", "job": b["job"]}, confirmed_native=True))
     for s, r in bad[:2]:
@@ -327,12 +339,16 @@ def replay(data):
     r = data["replay"]
     nat = (r.get("native") or {}).get("input") if isinstance(r, dict) else None
     if nat:
-        r = {"kind": "many", "job": nat["many"]} if "many" in nat else ({"kind": "spelling", "job": nat["spelling"]} if "spelling" in nat else {"kind": "generated", "spec": nat["spec"]})
+        r = {"kind": "template", "job": nat["template"]} if "template" in nat else {"kind": "many", "job": nat["many"]} if "many" in nat else ({"kind": "spelling", "job": nat["spelling"]} if "spelling" in nat else {"kind": "generated", "spec": nat["spec"]})
     if "kind" not in r:
         print("no concrete input; refuted:", [x["id"] for x in r.get("refuted", [])])
         return 1
     if r["kind"] == "spelling":
         out = spelling_case(tuple(r["job"]))
+        print(out["problems"][:3])
+        return 1 if out["problems"] else 0
+    if r["kind"] == "template":
+        out = template_case(tuple(r["job"]))
         print(out["problems"][:3])
         return 1 if out["problems"] else 0
     if r["kind"] == "many":
@@ -342,3 +358,51 @@ def replay(data):
     out = gen_case(r["spec"])
     print(out["index_problems"], out["mismatches"][:2])
     return 1 if (out["index_problems"] or out["mismatches"]) else 0
+
+
+# ---- template constants next to literals ---------------------------------------------------------------------------------------
+def template_jobs(tier):
+    out = []
+    for nlit in (0, 1, 3, 4, 5, 8):
+        for (tf, lf) in ((1, 1), (2, 3), (3, 2), (2, 2), (4, 1)):
+            for v in ((5, 6, 10) if tier == "quick" else (5, 6, 7, 8, 9, 10)):
+                out.append((nlit, tf, lf, v))
+    return out
+
+
+def template_case(job):
+    """Tmpl.Int / Tmpl.Bytes used `tf` times next to `nlit` distinct literals used `lf` times each (so that the template is more / equally /
+    less frequent than the literals and falls inside or outside the first four block entries): both forms compile and behave alike."""
+    nlit, tf, lf, version = job
+    from vf.core import use_repo
+    use_repo()
+    import pyteal as pt
+    from spec import avm
+    out = {"job": list(job), "problems": []}
+    try:
+        ints = [200 + 37 * i for i in range(nlit)]           # >= 128: eligible for the block beyond the first four entries
+        small = [3 + i for i in range(nlit)]
+        byts = [bytes([65 + i, 66, 67]) for i in range(nlit)]
+        body, want = [], []
+        for rep in range(max(tf, lf)):
+            if rep < tf:
+                body += [pt.Log(pt.Itob(pt.Tmpl.Int("TMPL_X") + pt.Int(1))), pt.Log(pt.Concat(pt.Tmpl.Bytes("TMPL_B"), pt.Bytes("!")))]
+                want += [(77 + 1).to_bytes(8, "big"), b"tb!"]
+            if rep < lf:
+                for a, s_, b in zip(ints, small, byts):
+                    body += [pt.Pop(pt.Int(a) + pt.Int(s_)), pt.Pop(pt.Len(pt.Bytes(b)))]
+        if len(want) > 30:
+            return out
+        prog = pt.Seq(*body, pt.Approve())
+        ctx = lambda: avm.Ctx(tmpl={"TMPL_X": 77, "TMPL_B": b"tb"})
+        t0 = pt.compileTeal(prog, pt.Mode.Application, version=version, assembleConstants=False)
+        t1 = pt.compileTeal(prog, pt.Mode.Application, version=version, assembleConstants=True)
+        r0, r1 = avm.run(t0, ctx()), avm.run(t1, ctx())
+        for name, rr in (("pseudo-op form", r0), ("assembled form", r1)):
+            if rr.verdict != "approve" or rr.logs != want:
+                out["problems"].append(f"{name}: {rr.verdict} {rr.detail} logs {[l.hex() for l in rr.logs][:4]}, expected {[w.hex() for w in want][:4]}")
+                break
+        out["problems"] += check_indices(t1)[:3]
+    except Exception as e:
+        out["problems"].append(f"exception {type(e).__name__}: {str(e)[:200]}")
+    return out
